@@ -158,3 +158,61 @@ func AY[T any](site string, x T) T {
 	}
 	return x
 }
+
+// Channels of the code under test. Buffered channels are mediated: a task asks before it sends
+// or receives, and is granted the operation only when it cannot block (room in the buffer, an
+// element in it, or the channel closed), so the real operation that follows returns at once.
+// Unbuffered channels need two running tasks to meet and are not mediated: the instrumenter
+// refuses make(chan T) without a size, and a run that meets one anyway is discarded.
+func chanAddr[C any](c C) uint64 { return uint64(*(*uintptr)(unsafe.Pointer(&c))) }
+
+func ChanMake[T any](c chan T, site string) chan T {
+	if Active() {
+		if cap(c) == 0 {
+			w.overflow = 1
+		}
+		yield(kChanMake, chanAddr(c), siteHash(site), 0)
+	}
+	return c
+}
+
+func ChanSend[T any](c chan<- T, v T, site string) {
+	if Active() {
+		if cap(c) == 0 {
+			w.overflow = 1
+		} else {
+			yield(kChanSend, chanAddr(c), siteHash(site), 0)
+		}
+	}
+	c <- v
+}
+
+func ChanRecv[T any](c <-chan T, site string) T {
+	if Active() {
+		if cap(c) == 0 {
+			w.overflow = 1
+		} else {
+			yield(kChanRecv, chanAddr(c), siteHash(site), 0)
+		}
+	}
+	return <-c
+}
+
+func ChanRecv2[T any](c <-chan T, site string) (T, bool) {
+	if Active() {
+		if cap(c) == 0 {
+			w.overflow = 1
+		} else {
+			yield(kChanRecv, chanAddr(c), siteHash(site), 0)
+		}
+	}
+	v, ok := <-c
+	return v, ok
+}
+
+func ChanClose[T any](c chan<- T, site string) {
+	close(c)
+	if Active() {
+		yield(kChanClose, chanAddr(c), siteHash(site), 0)
+	}
+}
